@@ -7,7 +7,8 @@ set -u
 P="$(readlink -f "$1")"; shift
 WT="$(mktemp -d /var/tmp/seedwt.XXXXXX)"
 trap 'git -C /repo worktree remove --force "$WT" >/dev/null 2>&1; rm -rf "$WT"' EXIT
-git -C /repo worktree add -q --detach "$WT" HEAD || exit 2
+for _try in 1 2 3 4 5 6; do git -C /repo worktree add -q --detach "$WT" HEAD 2>/dev/null && break; sleep 3; done
+[ -e "$WT/.git" ] || { echo "cannot create scratch worktree"; exit 2; }
 git -C "$WT" apply "$P" || { echo "patch does not apply"; exit 2; }
 OV=""
 while read -r f; do
